@@ -554,6 +554,9 @@ impl Property for C05 {
         let variants = if rng.chance(1, 2) { rng.range(1, 3) } else { 0 };
         judge_graph(&spec, keys, threaded, variants, &mut res);
         ctx::uninstall();
+        // builds (and samples) of fixed seed graphs must not change during the life of
+        // the worker process (state corrupted by earlier builds)
+        crate::prop_sc::canary_check(&mut res);
         if index < 64 {
             let m = model(&spec);
             res.sample = Some(json!({
@@ -569,6 +572,9 @@ impl Property for C05 {
     }
     fn replay(&self, case: &Value) -> OneResult {
         let mut res = OneResult::default();
+        if case["kind"] == "canary" {
+            return res; // only the prefix replay can show it
+        }
         if case["kind"] == "scenario" {
             let sc: Scenario = serde_json::from_value(case["scenario"].clone()).expect("bad scenario");
             let rep = run_scenario(&sc, &RunOpts::default());
